@@ -245,8 +245,20 @@ def rule_subprocess(ck: Check, repo: Repo, cg: CallGraph) -> None:
             # runner (literal lists at the call sites) is what is judged
             variants = []
             runner_list = cmd or inline
-            if runner_list is not None and any(isinstance(e, ast.Starred) and isinstance(e.value, ast.Name)
-                                               and e.value.id in [a.arg for a in fn.args.args] for e in runner_list.elts):
+            if runner_list is not None and fn.args.vararg is not None and any(
+                    isinstance(e, ast.Starred) and isinstance(e.value, ast.Name) and e.value.id == fn.args.vararg.arg for e in runner_list.elts):
+                # the same runner taking the options as `*args`: every positional argument of a call site past the named ones
+                head = [ast.unparse(e) if not isinstance(e, ast.Constant) else e.value for e in runner_list.elts if not isinstance(e, ast.Starred)]
+                first = len(fn.args.args) - (1 if fn.args.args and fn.args.args[0].arg in ("self", "cls") else 0)
+                for f2, fn2 in repo.functions.items():
+                    for c2 in find_calls(fn2, lambda cc, name: name.split(".")[-1] == fn.name):
+                        rest_args = c2.args[first:]
+                        if rest_args and all(isinstance(e, ast.Constant) for e in rest_args) and not c2.keywords:
+                            variants.append((f2.split(".")[-2], head + [e.value for e in rest_args]))
+                        else:
+                            variants.append((f2.split(".")[-2], None))
+            elif runner_list is not None and any(isinstance(e, ast.Starred) and isinstance(e.value, ast.Name)
+                                                 and e.value.id in [a.arg for a in fn.args.args] for e in runner_list.elts):
                 star = next(e.value.id for e in runner_list.elts if isinstance(e, ast.Starred))
                 pidx = [a.arg for a in fn.args.args].index(star)
                 head = [ast.unparse(e) if not isinstance(e, ast.Constant) else e.value for e in runner_list.elts if not isinstance(e, ast.Starred)]
@@ -361,7 +373,10 @@ def rule_provenance(ck: Check, repo: Repo) -> None:
     s3 = re.sub(r"\s+", " ", ast.unparse(dl))
     from ..model import kwarg as _kw
     puts = find_calls(dl, lambda c, f: f == "put_license_in_file")
-    ok = "destination: Path = output" in s3 and "if destination is None: destination = _path_to_license_file(lic, obj.project)" in s3 \
+    ok = (("destination: Path = output" in s3 and "if destination is None: destination = _path_to_license_file(lic, obj.project)" in s3)
+          # the same choice as one conditional expression, either way round
+          or "destination = output if output is not None else _path_to_license_file(lic, obj.project)" in s3
+          or "destination = _path_to_license_file(lic, obj.project) if output is None else output" in s3) \
         and len(puts) == 1 and ast.unparse(_kw(puts[0], "destination") or ast.Constant(None)) == "destination" \
         and ast.unparse(_kw(puts[0], "spdx_identifier") or ast.Constant(None)) == "lic"
     r.instance("download-destination", {"ok": ok})
